@@ -11,13 +11,13 @@ DISTINCT_RULE = (
     "matching (aggressive multi-level, passive, SP, reduced after removals) or full-match twins; distinct = (market type, runner result, order type, side, "
     "dead-heat k, #fragments<=3) cells compared with the first-principles settlement calculator"
 )
-RULES = ["order-profit", "avg-price", "twin", "cleared-market", "paper-cleared-market", "paper-order-profit"]
+RULES = ["order-profit", "avg-price", "twin", "cleared-market", "paper-cleared-market", "paper-order-profit", "reduced-fill"]
 MINIMA = {"quick": {"rule_order-profit": 4000, "rule_twin": 300, "rule_cleared-market": 1000, "rule_paper-cleared-market": 200, "paper_polls_with_two_markets": 100}, "thorough": {"rule_order-profit": 150000}}
 ASSUMPTIONS = [
     "settlement rules as stated in the property (win/lose, removed = 0, one-winner dead heat, each-way terms, even-money lines)",
     "tolerance 0.005*matched*(1+1/d)+0.01 because flumine settles on a 2-dp average price",
 ]
-KINDS = ["win", "win", "win", "place", "eachway", "eachway", "twin", "line", "win_removal"]
+KINDS = ["win", "win", "win", "place", "eachway", "eachway", "twin", "line", "win_removal", "sp_removal"]
 
 
 def plan(tier, seed):
@@ -25,7 +25,8 @@ def plan(tier, seed):
     # directed case for the listed finding C08-line-tie (struck line == result, both sides on one fill)
     # ... and for C08-line-struck-at-zero (a bet struck at the line 0.0)
     paper = [{"seed": seed, "idx": i, "kind": "paper"} for i in range(150 if tier == "quick" else 2500)]
-    return [{"seed": seed, "idx": 0, "kind": "line", "force_tie": True}, {"seed": seed, "idx": 1, "kind": "line", "force_zero": True}] + [{"seed": seed, "idx": i, "kind": KINDS[i % len(KINDS)]} for i in range(2, n)] + paper
+    # ... and for C08-sp-lay-resized-after-late-withdrawal
+    return [{"seed": seed, "idx": 0, "kind": "line", "force_tie": True}, {"seed": seed, "idx": 1, "kind": "line", "force_zero": True}, {"seed": seed, "idx": 2, "kind": "sp_removal", "force_moc_lay": True}] + [{"seed": seed, "idx": i, "kind": KINDS[i % len(KINDS)]} for i in range(3, n)] + paper
 
 
 def _clients(rng):
@@ -72,9 +73,11 @@ def build(desc):
         case["markets"] = [{"id": mid, "text": mf.text()}]
         case["strategies"] = [{"name": "S0", "actions": actions}]
         return case, {mid: G.read_lines(mf.lines)}
-    mt = {"win": "WIN", "win_removal": "WIN", "twin": "WIN", "place": "PLACE", "eachway": "EACH_WAY"}[kind]
+    mt = {"win": "WIN", "win_removal": "WIN", "sp_removal": "WIN", "twin": "WIN", "place": "PLACE", "eachway": "EACH_WAY"}[kind]
+    # one-winner markets are not all called WIN (golf round leader, match odds, ...): the dead-heat rule is the same
+    mt_file = rng.choice(("WIN", "WIN", "MATCH_ODDS", "ROUND_LEADER", "TOURNAMENT_WINNER", "TOP_BATSMAN")) if mt == "WIN" else mt
     params = {
-        "market_types": (mt,),
+        "market_types": (mt_file,),
         "winners": (1,) if mt != "PLACE" else (2, 3),
         "n_runners": (3, 6),
         "close": False,
@@ -84,8 +87,19 @@ def build(desc):
         "p_bsp": 0.9,
         "handicaps": "lines" if (mt == "WIN" and kind == "win" and rng.random() < 0.3) else False,
     }
+    if kind == "sp_removal":
+        # a late withdrawal: the runner is removed after the off (starting prices already reconciled); bets matched at the starting
+        # price on the other runners are paid at the reduced price like any other fill
+        mt_file = "WIN"
+        params.update(market_types=("WIN",), p_inplay=1.0, p_bsp=1.0, p_removal=0.0, n_runners=(4, 6), n_inplay=(1, 3), handicaps=False)
     d = G.Director(rng, mid, params)
     mf = d.run()
+    if kind == "sp_removal" and len(d.active_keys()) > 2:
+        d.remove_runner(rng.choice(d.active_keys()), factor=rng.choice((2.5, 12.0, 30.0, 64.0)), with_suspend=rng.random() < 0.3)
+        if mf.md["status"] == "SUSPENDED":
+            d.reopen()
+        for _ in range(rng.randint(1, 3)):
+            d.open_tick()
     act = d.active_keys()
     rng.shuffle(act)
     if mt == "WIN":
@@ -119,13 +133,12 @@ def build(desc):
             for side in ("BACK", "LAY"):
                 actions.append({"m": mid, "at": at, "op": "place", "ref": "tw%d%s" % (j, side), "sel": list(key), "side": side, "price": pr, "size": sz})
     else:
-        actions = simgen.gen_script(
-            rng,
-            snaps,
-            mid,
-            "S0",
-            {"n_orders": (3, 9), "modes": ("cross", "cross", "cross", "at", "join", "rest"), "p_cancel": 0.1, "p_update": 0.05, "p_replace": 0.1, "sizes": (2.0, 2.37, 5.0, 10.0, 25.5), "p_any_step": 0.0},
-        )
+        sp = {"n_orders": (3, 9), "modes": ("cross", "cross", "cross", "at", "join", "rest"), "p_cancel": 0.1, "p_update": 0.05, "p_replace": 0.1, "sizes": (2.0, 2.37, 5.0, 10.0, 25.5), "p_any_step": 0.0}
+        if kind == "sp_removal":
+            sp.update(types=("LIMIT", "LOC", "MOC", "MOC"), n_orders=(4, 9))
+        actions = simgen.gen_script(rng, snaps, mid, "S0", sp)
+        if desc.get("force_moc_lay"):
+            actions.insert(0, {"m": mid, "at": 0, "op": "place", "ref": "fml", "sel": list(act[0]), "side": "LAY", "otype": "MOC", "liability": 10.0})
     for a in actions:
         if a["op"] == "place":
             a["client"] = rng.randrange(len(clients))
@@ -271,6 +284,15 @@ def run(desc):
     out = O.Out(PROPERTY)
     O.abort_violation(tr, out)
     O.c08_settlement(tr, out, snaps, case)
+    if desc["kind"] in ("win_removal", "sp_removal"):
+        # the fills that are settled are the exchange's: after a non-runner they carry the reduced price (C09's oracle re-states the
+        # reduction from the raw file; a fill left unreduced would otherwise be settled "consistently" at the wrong price)
+        out9 = O.Out("C09")
+        O.c09_removals(tr, out9, snaps, case, O.root_causes(tr))
+        for v in out9.violations:
+            if v["rule"] in ("matched-price-not-reduced-as-stated", "matched-price-changed-without-removal", "average-price-not-that-of-reduced-fills"):
+                out.v("settled-fill-not-at-reduced-price", dict(v["tags"], c09_rule=v["rule"]), **{k: v_ for k, v_ in v.get("detail", {}).items() if k in ("order", "expected", "factors")})
+        out.c("rule_reduced-fill", out9.counters.get("rule_reduction", 0))
     from . import _sim
 
     return out.result(sample=_sim.sample_of(case, tr) if desc["idx"] < 2 else None)
